@@ -8,8 +8,8 @@ from harness import common as C
 from harness import gridprobes as G
 
 PROP = "C13"
-TARGETS = ["IbicusModel.Props.C13"]
-GEN = ["GridDispatch"]
+TARGETS = ["IbicusModel.Props.C13", "IbicusModel.Lemmas.GenGridLoops"]
+GEN = ["GridDispatch", "GridLoops"]
 
 ERRNAME = G.ERRNAME
 
